@@ -26,6 +26,8 @@ def classify(ex):
         return "no_model"
     if "Model state must be set" in m:
         return "no_initial_values"
+    if "no position would be tracked" in m:
+        return "nothing_tracked"
     if "identifier must be unique" in m:
         return "duplicate_kernel_identifier"
     return "other:" + type(ex).__name__ + ":" + m[:80]
@@ -35,9 +37,12 @@ def builder_events():
     evs = []
     key_sets = [[["a"], ["b"]], [["a", "b"], ["b"]], [["a"], ["a"]], [["a"], ["b"], ["c", "a"]], [["a", "b"]]]
     idents = [["", ""], ["k", "k"], ["kernel_01", ""], ["x", "y"]]
-    for ks, ids, qgs, hm, hi, sc in itertools.product(key_sets, idents, [[], ["q", "q"], ["q", "r"]],
-                                                      [True, False], [True, False], [0, 2, 3]):
+    for ks, ids, qgs, hm, hi, sc, sel in itertools.product(key_sets, idents, [[], ["q", "q"], ["q", "r"]],
+                                                           [True, False], [True, False], [0, 2, 3], [0, 1, 2]):
         ids = (ids + ["", ""])[: len(ks)]
+        # selection of tracked positions: none given / every kernel key excluded / ... but an additional key included
+        every = sorted({k for s_ in ks for k in s_})
+        incl, excl = ([], []) if sel == 0 else ([], every) if sel == 1 else (["chain"], every)
         chains = 2
         b = gs.EngineBuilder(seed=1, num_chains=chains)
         if sc:
@@ -57,8 +62,9 @@ def builder_events():
         for q in qgs:
             b.add_quantity_generator(ProbeQG(q, allk))
         b.set_epochs([EpochConfig(EpochType.INITIAL_VALUES, 1, 1, None), EpochConfig(EpochType.POSTERIOR, 2, 1, None)])
+        b.positions_included, b.positions_excluded = list(incl), list(excl)
         e = {"ev": "builder", "kernels": [{"keys": keys, "ident": ident} for keys, ident in zip(ks, ids)], "qgs": qgs,
-             "has_model": hm, "has_init": hi, "seed_chains": sc, "chains": chains}
+             "has_model": hm, "has_init": hi, "seed_chains": sc, "chains": chains, "included": incl, "excluded": excl}
         try:
             b.build()
             e.update({"ok": True, "reason": "none", "idents": [k.identifier for k in kernels]})
